@@ -55,6 +55,14 @@ class BUG(TTNTimeEvolution):
         self.state.ensure_root_orth_center()
         self.config: BUGConfig
 
+    def reset_to_initial_state(self):
+        """
+        Resets the current state to the initial state with the root as the
+        orthogonality center, as required by the update.
+        """
+        super().reset_to_initial_state()
+        self.state.ensure_root_orth_center()
+
     def truncation(self):
         """
         Truncates the tree after the time evolution.
